@@ -296,4 +296,114 @@ theorem replaceRelocs_keys : ∀ {cs : List Cand} {rels rels' : List Reloc}, rep
         rw [this]
         exact List.perm_append_comm.trans (List.Perm.refl _)
 
+/-! ### the candidate loop touches only the two bytes it keeps of every accepted jump -/
+
+theorem splice_length {data new : List Nat} {off : Nat} (h : off + new.length ≤ data.length) :
+    (splice data off new).length = data.length := by
+  unfold splice
+  simp only [List.length_append, List.length_take, List.length_drop]
+  omega
+
+theorem splice_get {data new : List Nat} {off i : Nat} (h : off + new.length ≤ data.length)
+    (hi : i < off ∨ off + new.length ≤ i) : (splice data off new)[i]? = data[i]? := by
+  unfold splice
+  rcases hi with hi | hi
+  · rw [List.getElem?_append_left (by simp only [List.length_append, List.length_take]; omega),
+      List.getElem?_append_left (by simp only [List.length_take]; omega), List.getElem?_take]
+    simp [hi]
+  · rw [List.getElem?_append_right (by simp only [List.length_append, List.length_take]; omega)]
+    simp only [List.length_append, List.length_take, List.getElem?_drop]
+    congr 1
+    omega
+
+/-- what the candidates `cs` may have changed in a section -/
+def Patched (cs : List Cand) (s s' : Section) : Prop :=
+  SameShape s s' ∧ s'.data.length = s.data.length ∧
+  ∀ i, (∀ c ∈ cs, c.reloc.sect = s.name → i < c.reloc.offset ∨ c.reloc.offset + 2 ≤ i) → s'.data[i]? = s.data[i]?
+
+theorem getSec_of_mem_nodup : ∀ {secs : List Section} {s : Section}, (secs.map (·.name)).Nodup → s ∈ secs →
+    getSec secs s.name = some s
+  | [], _, _, h => by cases h
+  | a :: rest, s, hnd, hs => by
+    rw [List.map_cons, List.nodup_cons] at hnd
+    rw [getSec_cons]
+    rcases List.mem_cons.1 hs with rfl | hs
+    · simp
+    · have : a.name ≠ s.name := fun e => hnd.1 (e ▸ List.mem_map.2 ⟨s, hs, rfl⟩)
+      simp only [if_neg this]
+      exact getSec_of_mem_nodup hnd.2 hs
+
+theorem all2_map_mem {α : Type} {R : α → α → Prop} (f : α → α) : ∀ (l : List α), (∀ a ∈ l, R a (f a)) → All2 R l (l.map f)
+  | [], _ => .nil
+  | a :: rest, h => .cons (h a (by simp)) (all2_map_mem f rest (fun x hx => h x (by simp [hx])))
+
+theorem all2_names {secs secs' : List Section} (h : All2 SameShape secs secs') :
+    secs'.map (·.name) = secs.map (·.name) := by
+  induction h with
+  | nil => rfl
+  | cons hr _ ih => simp only [List.map_cons, ih, hr.1]
+
+def candList : Option Cand → List Cand
+  | some x => [x]
+  | none => []
+
+theorem scanStep_data {o : Obj} {secs secs' : List Section} {r : Reloc} {c : Option Cand}
+    (hnd : (secs.map (·.name)).Nodup) (h : scanStep o secs r = .ok (secs', c)) :
+    All2 (Patched (candList c)) secs secs' := by
+  rcases scanStep_spec h with ⟨rfl, rfl⟩ | ⟨k, sec, S, rfl, _, _, hg, _, _, l4, rfl⟩
+  · exact All2.refl' (fun _ => ⟨⟨rfl, rfl, rfl⟩, rfl, fun _ _ => rfl⟩) _
+  · have hoff : r.offset + 4 ≤ sec.data.length := by
+      simp only [List.length_take, List.length_drop] at l4
+      omega
+    unfold updSec
+    apply all2_map_mem
+    intro s hs
+    by_cases hb : (s.name == r.sect) = true
+    · rw [if_pos hb]
+      have hsn : s.name = r.sect := by simpa using hb
+      have : getSec secs r.sect = some s := hsn ▸ getSec_of_mem_nodup hnd hs
+      rw [hg] at this
+      cases this
+      have lp := patch_length k _ l4
+      refine ⟨⟨rfl, rfl, rfl⟩, splice_length (by rw [lp]; omega), ?_⟩
+      intro i hi
+      have := hi { hole := (r.offset + 2, 2), reloc := r } (by simp [candList]) hsn.symm
+      exact splice_get (by rw [lp]; omega) (by rw [lp]; exact this)
+    · rw [if_neg hb]
+      exact ⟨⟨rfl, rfl, rfl⟩, rfl, fun _ _ => rfl⟩
+
+theorem patched_trans {cs₁ cs₂ : List Cand} (a b c : Section) (h1 : Patched cs₁ a b) (h2 : Patched cs₂ b c) :
+    Patched (cs₁ ++ cs₂) a c := by
+  obtain ⟨s1, l1, d1⟩ := h1
+  obtain ⟨s2, l2, d2⟩ := h2
+  refine ⟨sameShape_trans a b c s1 s2, l2.trans l1, ?_⟩
+  intro i hi
+  rw [d2 i (fun x hx hn => hi x (List.mem_append.2 (Or.inr hx)) (hn.trans s1.1)),
+    d1 i (fun x hx hn => hi x (List.mem_append.2 (Or.inl hx)) hn)]
+
+/-- after the candidate loop every section has its old length and its old bytes, except for the first two
+    bytes of every accepted jump (section names pairwise different) -/
+theorem scan_data {o : Obj} : ∀ {rels : List Reloc} {secs secs' : List Section} {cs : List Cand},
+    (secs.map (·.name)).Nodup → scan o secs rels = .ok (secs', cs) → All2 (Patched cs) secs secs'
+  | [], secs, secs', cs, _, h => by
+    simp only [scan] at h; cases h
+    exact All2.refl' (fun _ => ⟨⟨rfl, rfl, rfl⟩, rfl, fun _ _ => rfl⟩) _
+  | r :: rest, secs, secs', cs, hnd, h => by
+    simp only [scan] at h
+    cases h1 : scanStep o secs r with
+    | error e => rw [h1] at h; cases h
+    | ok p =>
+      obtain ⟨secs1, c⟩ := p
+      rw [h1] at h
+      simp only at h
+      cases h2 : scan o secs1 rest with
+      | error e => rw [h2] at h; cases h
+      | ok q =>
+        obtain ⟨secs2, cs2⟩ := q
+        rw [h2] at h
+        cases h
+        have hnd1 : (secs1.map (·.name)).Nodup := by rw [all2_names (scanStep_shape h1)]; exact hnd
+        have key := All2.trans' patched_trans (scanStep_data hnd h1) (scan_data hnd1 h2)
+        cases c <;> exact key
+
 end Proofs.Relax
